@@ -101,6 +101,14 @@ def canon(F, n):
             return ("FILE", ("fld", h, "p_offset"), prov.ADD(("fld", h, "p_offset"), ("fld", h, "p_filesz")))
     if k == "call" and n[1] == "ops::Index::index" and n[2][0] == F_(P(1), "shdrs"):
         return ("SHDR_AT", canon(F, n[2][1]))
+    if k == "proj" and isinstance(n[2], str) and n[2].startswith("('cidx', ") and n[1] in (("call", "vec::Vec::as_slice", (F_(P(1), "shdrs"),)), F_(P(1), "shdrs")):
+        # `let [shdr0, ..] = self.shdrs.as_slice()`: element k of the section header vector
+        try:
+            kk = int(n[2].split(",")[1])
+            if "True" not in n[2]:
+                return ("SHDR_AT", ("c", kk))
+        except ValueError:
+            pass
     if k == "fld" and n[2] == 0 and isinstance(n[1], tuple) and n[1] and n[1][0] == "SECTION_DATA":
         pass
     out = tuple(canon(F, x) for x in n)
